@@ -77,13 +77,13 @@ type Step struct {
 	ID   string `json:"id"`
 	Kind string `json:"kind"` // plugin | foreach
 	// plugin
-	NoSignal bool     `json:"nosignal,omitempty"` // use the step without a cancel signal
-	In       []Field  `json:"in,omitempty"`       // a, s, l, o, mode, dur, on_cancel
-	WaitFor  *Expr    `json:"wait_for,omitempty"`
-	Enabled  *Expr    `json:"enabled,omitempty"`
-	StopIf   *Expr    `json:"stop_if,omitempty"`
-	Deploy   *Deploy  `json:"deploy,omitempty"`
-	Closure  *int64   `json:"closure,omitempty"`
+	NoSignal bool    `json:"nosignal,omitempty"` // use the step without a cancel signal
+	In       []Field `json:"in,omitempty"`       // a, s, l, o, mode, dur, on_cancel
+	WaitFor  *Expr   `json:"wait_for,omitempty"`
+	Enabled  *Expr   `json:"enabled,omitempty"`
+	StopIf   *Expr   `json:"stop_if,omitempty"`
+	Deploy   *Deploy `json:"deploy,omitempty"`
+	Closure  *int64  `json:"closure,omitempty"`
 	// foreach
 	Sub         string `json:"sub,omitempty"`
 	Items       *Expr  `json:"items,omitempty"`
@@ -92,8 +92,8 @@ type Step struct {
 
 // Deploy is the per-step deployment override.
 type Deploy struct {
-	Latency *Expr  `json:"latency,omitempty"`
-	Mode    *Expr  `json:"mode,omitempty"`
+	Latency *Expr `json:"latency,omitempty"`
+	Mode    *Expr `json:"mode,omitempty"`
 }
 
 // Output is one declared workflow output.
